@@ -135,6 +135,7 @@ func e2eSequences(c *e2eCtx) error {
 			cfg := proj.DefaultConfig(old)
 			cfg.Granularity = pick(r, []string{"line", "patch", "scope", "func"})
 			cfg.Precision = pick(r, []int{2, 3})
+			cfg.Threads = pick(r, []int{1, 2, 3, 4}) // the parallel paths of the three commands are part of every sequence
 			if i%2 == 0 {
 				cfg.Alias, cfg.PkgName, cfg.PkgPath = "cov", "covpkg", "internal/cov"
 			}
@@ -169,6 +170,7 @@ func e2eSequences(c *e2eCtx) error {
 			cfg := proj.DefaultConfig(old)
 			cfg.Granularity = pick(r, []string{"line", "patch", "scope", "func"})
 			cfg.Precision = pick(r, []int{1, 2, 3})
+			cfg.Threads = pick(r, []int{1, 2, 3})
 			if i%2 == 1 {
 				cfg.Alias, cfg.PkgName, cfg.PkgPath = "gcov", "goat", "tools/goat"
 			}
